@@ -461,7 +461,7 @@ class WaitUnit(Unit):
     prop = 'C07'
     file = F
     qual = 'Server._wait_for_result'
-    ignore_stmts = (r"fut\.data\['t_cancelled'\] = .*", r"t0 = fut\.data\['t0'\]")
+    ignore_stmts = (r"fut\.data\['t_cancelled'\] = .*",)
     expected_exits = ('normal', 'raise')
     canaries = (('timed-out request not cancelled', '            fut.cancel()\n', '', 'cancelled'),)
 
